@@ -141,6 +141,10 @@ def r2(ctx):
         guard = body[i_s2] if isinstance(body[i_s2], ast.If) else None
         ok = guard is None or re.sub(r"\s", "", src(guard.test)) in ("self_align_xyz.ctypes.data!=self_displace_xyz.ctypes.data",)
         ctx.decide(ok, "C06-R2", guard or s2, TRAJ, "Trajectory.superpose", "displaced centring skipped only when both arrays share memory", "", "displaced centring is conditional on `%s`" % (src(guard.test) if guard else None))
+    ok = None not in (i_ref, i_s1) and i_ref < i_s1 and (i_s2 is None or i_ref < i_s2)
+    ctx.decide(ok, "C06-R2", r or fn, TRAJ, "Trajectory.superpose", "the reference frame is copied before the mobile coordinates are centred in place", "",
+               "the reference is copied after `self_align_xyz -= offset`: self_align_xyz / self_displace_xyz are views of self.xyz, so when the reference is the trajectory itself "
+               "(t.superpose(t, frame)) the frame is read after it has been moved to the origin and every frame is superposed onto the wrong position")
     i_ro, ro = find(assign_to("ref_offset"), "")
     rosrc = re.sub(r"\s", "", src(ro.value)).replace('"', "'") if ro is not None else ""
     ok = rosrc == "ref_align_xyz[0].astype('float64').mean(0)"
